@@ -2,3 +2,7 @@ import OvniModel.Generated.All
 import OvniModel.Version
 import OvniModel.Lemmas.Version
 import OvniModel.Props.C14
+import OvniModel.Emu.Task
+import OvniModel.Emu.TaskSpec
+import OvniModel.Lemmas.Task
+import OvniModel.Props.C07
